@@ -123,6 +123,24 @@ def generate(g, tier):
         steps = [expect(c1), dict(expect='write'), expect(c2)]
         cases.append(dict(op='cli', home_cfg=(dict(DEFAULTS, **c1) if where == 'home' else None), files={'proj/s.txt': text}, cfgs=({'proj': c1} if where == 'proj' else {}),
                           pre_files={}, invocations=invs, meta=dict(family='compile', steps=steps, nocorr=True)))
+    # the deepest programs the command line can be asked for: runaway and deepest-legal recursion at the largest stack limits it accepts
+    # (a limit given on the command line, in the project file or in the home file) end in a REPORTED StackOverflowError / succeed —
+    # the command never raises, the output path keeps what it held, the prints made on the way are in the report
+    DEEP = [('FUNC f\n    RUN f\nPRINT going\nRUN f', 2), ('FUNC f n\n    IF n >= 0\n        RUN f n+1\nPRINT going\nRUN f 0', 3),
+            ('FUNC f\n    REPEAT 1\n        RUN f\nPRINT going\nRUN f', 3), ('FUNC f n\n    IF n < 0\n        STRING never\n    ELSE\n        RUN f n+1\nPRINT going\nRUN f 0', 5)]
+    for text, line in DEEP:
+        for lim, via in ((200, 'cmd'), (200, 'proj'), (150, 'cmd'), (199, 'home')) if tier != 'quick' else ((200, r.choice(['cmd', 'proj'])), (r.choice([150, 199]), r.choice(['cmd', 'home']))):
+            inv = dict(cmd='compile', file='proj/s.txt', output='o.txt')
+            if via == 'cmd': inv['stack_limit'] = lim
+            cases.append(dict(op='cli', home_cfg=(dict(DEFAULTS, stack_limit=lim) if via == 'home' else None), files={'proj/s.txt': text},
+                              cfgs=({'proj': dict(stack_limit=lim)} if via == 'proj' else {}), pre_files={'o.txt': 'STALE PAYLOAD\n'}, invocations=[inv],
+                              meta=dict(family='compile', steps=[dict(expect='fail', cls='StackOverflowError', line=line, prints=['going'])], nocorr=True, slow=True)))
+    for lim in (200, 150):
+        # the deepest legal chain: one call per level, lim - 2 levels below the program's own stack
+        text = f'FUNC f n\n    $STRING n\n    IF n < {lim // 2 - 2}\n        RUN f n+1\nRUN f 0'
+        cases.append(dict(op='cli', home_cfg=None, files={'proj/s.txt': text}, cfgs={}, pre_files={},
+                          invocations=[dict(cmd='compile', file='proj/s.txt', output='o.txt', stack_limit=lim)],
+                          meta=dict(family='compile', steps=[dict(expect='ok', out=[f'STRING {i}' for i in range(lim // 2 - 1)])], nocorr=True, slow=True)))
     for _ in range(count(tier, 30, 200)):
         name = r.choice(['demo', 'My Project', 'x1', 'a-b', 'UPPER', 'bad_name', 'é'])
         path = r.choice([None, 'sub', 'deep/er'])
